@@ -90,4 +90,7 @@ def tasks(tier, seed):
         func("bt.core.CouponPayingSecurity.update"),
         func("bt.core.SecurityBase.outlay"),
         func("bt.core.SecurityBase.transact"),
+        # the history accessors the reports are assembled from: each hands out its series only after a lagging or pending security was refreshed
+        func("bt.core.SecurityBase.positions"), func("bt.core.SecurityBase.outlays"), func("bt.core.SecurityBase.values"), func("bt.core.SecurityBase.notional_values"),
+        func("bt.core.SecurityBase.bidoffers_paid"),
     ]
